@@ -285,6 +285,8 @@ def run(ctx):
     if gen_err is None:
         okm, outm = ctx.coq_make(["Gen/Consts.vo", "Gen/CltvChecks.vo", "Model/CltvHand.vo"])
         proved = ctx.prove("C08")
+        if proved and ctx.tier == "thorough":
+            proved = ctx.coqchk("C08")
     else:
         ctx.obligations.append(("rs2v-generation", False, gen_err))
         okm = False
